@@ -242,14 +242,15 @@ fn is_pseudo(n: &[u8]) -> bool {
 /// The full names a lookup of `name` may consult, in order (refs/<name>, refs/tags/<name>, … for
 /// partial names; the name itself, or its worktree-stripped form, for full names).
 fn candidates(name: &[u8]) -> Vec<Vec<u8>> {
-    let full = name.starts_with(b"refs/") || name.starts_with(b"main-worktree/") || name.starts_with(b"worktrees/") || is_pseudo(name);
+    // packed lookups do not treat HEAD-like names as full names: `DEV` may be short for refs/heads/DEV
+    let full = name.starts_with(b"refs/") || name.starts_with(b"main-worktree/") || name.starts_with(b"worktrees/");
     if !full {
         return ["", "tags/", "heads/", "remotes/"]
             .iter()
             .map(|ib| [b"refs/", ib.as_bytes(), name].concat())
             .collect();
     }
-    if name.starts_with(b"refs/worktree/") || is_pseudo(name) {
+    if name.starts_with(b"refs/worktree/") {
         return vec![];
     }
     if name.starts_with(b"refs/") {
